@@ -35,6 +35,29 @@ type multicastProxy struct {
 
 	multicastLock sync.Mutex
 	members       []io.Closer
+	gen           int // 启动次数，标识当前这一轮(从第一个成员加入到最后一个成员离开)
+}
+
+// multicastCycle 是代理在“一轮”中交给流的消费者。
+// 上一轮的消费协程在 StopConsume 之后才异步执行它的 Close；
+// 那时代理可能已经为新成员重新启动，这个迟到的 Close 不能影响新的一轮。
+type multicastCycle struct {
+	proxy *multicastProxy
+	gen   int
+}
+
+func (c *multicastCycle) Consume(p Pack) { c.proxy.Consume(p) }
+
+func (c *multicastCycle) Close() error {
+	proxy := c.proxy
+	proxy.multicastLock.Lock()
+	defer proxy.multicastLock.Unlock()
+
+	if c.gen != proxy.gen { // 属于已经结束的一轮
+		return nil
+	}
+	proxy.close()
+	return nil
 }
 
 func (proxy *multicastProxy) AddMember(m io.Closer) {
@@ -63,14 +86,17 @@ func (proxy *multicastProxy) AddMember(m io.Closer) {
 			}
 		}
 
-		proxy.members = append(proxy.members, m)
 		proxy.source = stream
-		proxy.cid = stream.StartConsume(proxy, media.RTPPacket,
+		proxy.gen++
+		proxy.cid = stream.StartConsume(&multicastCycle{proxy: proxy, gen: proxy.gen}, media.RTPPacket,
 			"net = rtsp-multicast, "+proxy.multicastIP)
 		proxy.closed = false
 
 		proxy.logger.Info("multicast proxy started.")
 	}
+
+	// 每个成员都要登记：最后一个成员离开时才停止代理，流结束时关闭所有成员
+	proxy.members = append(proxy.members, m)
 }
 
 func (proxy *multicastProxy) ReleaseMember(m io.Closer) {
